@@ -295,6 +295,54 @@ def run(case):
                     break
             sl_obs = {"items": [[s.start, s.stop] for s in items], "offs": offs, "vals": sl_vals}
             tags.append("slice")
+            # interpolate() of the sliced coordinate: positions count from the start of the sliced table
+            if not fails and all(n > 1 for n in newlens):
+                glen = rng.randint(1, 3)
+                g2 = [sorted(rng.randrange(0, 4 * (n - 1) + 1) / 4 for _ in range(glen)) for n in newlens]
+                arrs = [np.array(g, dtype=float) for g in g2]
+                ic = sc.interpolate(arrs) if len(case["members"]) > 1 else (sc.interpolate(*arrs) if case["members"][0]["kind"] != "time" else sc.interpolate(arrs[0]))
+                iw = ic.wcs
+                for j in range(glen):
+                    got = p2w(iw, [float(j)] * len(g2))
+                    want = expected_world(case, [g[j] + o for g, o in zip(g2, offs)])
+                    p2, wi = 0, 0
+                    for m in case["members"]:
+                        if m["kind"] == "time":
+                            want[wi] = want[wi] + m["tables"][0][0] - interp_ref(m["tables"][0], g2[p2][0] + offs[p2])
+                        p2 += n_inputs(m); wi += len(columns(m))
+                    if not same(got, want, tol):
+                        fails.append(f"coord[{items}].interpolate({g2}) entry {j} is {got}, the sliced tables interpolated there give {want}")
+                        break
+                tags.append("interpolate-of-slice")
+            # a slice of the sliced coordinate (a meshed SkyCoord table composes its slices lazily)
+            if not fails:
+                items2, offs2, lens2 = [], [], []
+                for n in newlens:
+                    a, b = gen_slice(rng, n)
+                    items2.append(slice(a, b))
+                    r = range(n)[slice(a, b)]
+                    offs2.append(r[0]); lens2.append(len(r))
+                p = 0
+                for m in case["members"]:
+                    if m["kind"] == "sky2mesh" and rng.random() < 0.5:
+                        items2[p + 1] = items2[p]; offs2[p + 1] = offs2[p]; lens2[p + 1] = lens2[p]
+                    p += n_inputs(m)
+                sc2 = sc[tuple(items2)] if len(items2) > 1 else sc[items2[0]]
+                sw2 = sc2.wcs
+                for _ in range(6):
+                    q = [float(rng.randrange(n)) if rng.random() < 0.5 or n == 1 else rng.randrange(n - 1) + rng.choice([0.25, 0.5]) for n in lens2]
+                    got = p2w(sw2, q)
+                    at = [a + o + o2 for a, o, o2 in zip(q, offs, offs2)]
+                    want = expected_world(case, at)
+                    if not same(got, want):
+                        fails.append(f"coord[{items}][{items2}] at pixel {q} gives {got}, the original at {at} gives {want}")
+                        break
+                # beyond the end of the twice-sliced table there is no value
+                q = [float(n) for n in lens2]
+                got = p2w(sw2, q)
+                if not fails and not all(np.isnan(x) for x in got):
+                    fails.append(f"coord[{items}][{items2}] has {lens2} entries but gives {got} at pixel {q}")
+                tags.append("slice-of-slice")
         except Exception as e:
             fails.append(f"coord[{items}] raised {type(e).__name__}: {str(e)[:120]}")
     obs["slice"] = sl_obs
@@ -312,11 +360,14 @@ def run(case):
                 grids[p + 1] = [min(g, lens[p + 1] - 1) for g in grids[p]][:len(grids[p])]
                 grids[p] = grids[p][:len(grids[p + 1])]
             p += n_inputs(m)
-        unequal_q2 = False
+        unequal_q2 = unequal_mesh = False
         p = 0
         for m in case["members"]:
             if m["kind"] == "quantity2" and len(grids[p]) != len(grids[p + 1]):
                 unequal_q2 = True
+            if m["kind"] == "sky2mesh" and len(grids[p]) > 1 and rng.random() < 0.25:
+                grids[p + 1] = grids[p + 1][:-1]         # the two axes of a meshed table are independent
+                unequal_mesh = True
             p += n_inputs(m)
         try:
             arrs = [np.array(g, dtype=float) for g in grids]
@@ -340,7 +391,7 @@ def run(case):
             it_obs = {"grids": grids, "vals": it_vals}
             tags.append("interpolate" + ("-unequal-grids" if len({len(g) for g in grids}) > 1 else ""))
         except Exception as e:
-            fails.append(("[quantity2 grids of different lengths] " if unequal_q2 else "") +
+            fails.append(("[quantity2 grids of different lengths] " if unequal_q2 else "[sky2mesh grids of different lengths] " if unequal_mesh else "") +
                          f"interpolate({grids}) raised {type(e).__name__}: {str(e)[:120]}")
     obs["interp"] = it_obs
     # (6) ExtraCoords.resample on a cube
@@ -446,6 +497,8 @@ def compare(case, r, m):
 def signature(case, failure):
     if failure.startswith("[quantity2 grids of different lengths]") and "must all be same shape" in failure:
         return "quantity-multi-table-interpolate:unequal-grid-lengths-refused"
+    if failure.startswith("[sky2mesh grids of different lengths]") and "must all be same shape" in failure:
+        return "meshed-skycoord-interpolate:unequal-grid-lengths-refused"
     return "other:" + failure[:60]
 
 
